@@ -2,6 +2,8 @@
 the Python objects of a generated package (DESIGN 2.3: the only two translation functions)."""
 import base64
 import datetime
+import hashlib
+import re
 
 from anchors import INT_ANCHORS, FLOAT_ANCHORS, INT_RANK, FLOAT_RANK
 from stonegen import TS_FORMATS, concrete_str
@@ -136,6 +138,9 @@ class Binder:
                 raise Unprojectable('str %r' % (o,))
             if o == '':
                 return {'k': 'str', 'len': 0, 'ok': True, 'u': 0}
+            m = re.match(r'^se(\d)cret\1x*$', o)
+            if m:
+                return {'k': 'str', 'len': len(o), 'ok': True, 'u': int(m.group(1))}
             body = o[:-1] if o.endswith('Z') else o
             u = 1 if 'é' in o else 0
             if body.strip('aé') != '' or (u and 'a' in body):
@@ -246,6 +251,8 @@ def doc_to_json(d):
             return '!bad!'
         if of == 'nonascii':
             return 'ü\U0001F600ü'
+    if k == 'jred':
+        return redact_expected(d['red'], untyped_to_py(d['v']))
     if k == 'jarr':
         return [doc_to_json(x) for x in d['items']]
     if k == 'jobj':
@@ -264,3 +271,43 @@ def json_strict_eq(a, b):
     if isinstance(a, (list, tuple)):
         return isinstance(b, (list, tuple)) and len(a) == len(b) and all(json_strict_eq(x, y) for x, y in zip(a, b))
     return type(a) is type(b) and a == b
+
+
+def untyped_to_py(v):
+    """Abstract value -> python for the kinds that may sit below a redactor."""
+    k = v['k']
+    if k == 'none':
+        return None
+    if k == 'int':
+        return INT_ANCHORS[v['r']]
+    if k == 'float':
+        return FLOAT_ANCHORS[v['r']]
+    if k == 'str':
+        return concrete_str(v)
+    if k == 'bool':
+        return v['b']
+    if k == 'list':
+        return [untyped_to_py(x) for x in v['items']]
+    if k == 'map':
+        return {key: untyped_to_py(x) for key, x in _items(v['m'])}
+    raise ValueError(v)
+
+
+def redact_expected(red, val):
+    """lang_ref "Redaction", written independently of stone_validators: blot -> the mask (or the
+    regex groups joined by ***), hash -> md5 of the text (plus the blotted groups)."""
+    from stonegen import REDACT_REGEX
+    kind, _, rx = red.partition(':')
+    regex = REDACT_REGEX[rx] if rx else None
+    m = re.search(regex, val) if (regex and isinstance(val, str)) else None
+    if kind == 'blot':
+        return '***'.join(m.groups()) if m else '********'
+    if isinstance(val, bool) or not isinstance(val, (str, int, float)):
+        text = None
+    else:
+        text = val if isinstance(val, str) else str(val)
+    hashed = hashlib.md5(text.encode('utf-8')).hexdigest() if text is not None else None
+    if m:
+        blotted = '***'.join(m.groups())
+        return '%s (%s)' % (hashed, blotted) if hashed else blotted
+    return hashed
